@@ -7,8 +7,8 @@ P12 == [p \in {".", "a", "f", "z"} |-> "."]
 U10 == <<".", "d", "d/f", "dev", "f", "l", "s", "x", "x/f", "y">>
 P10 == [p \in {".", "d", "d/f", "dev", "f", "l", "s", "x", "x/f", "y"} |-> IF p = "d/f" THEN "d" ELSE IF p = "x/f" THEN "x" ELSE "."]
 (* "+p" sorts before ".", "d-" between "d" and "d/a": the bytewise order of the file list differs from the order of a directory walk *)
-U09 == <<"+p", ".", "a", "ab", "b", "d", "d-", "d/a", "e", "e/a">>
-P09 == [p \in {"+p", ".", "a", "ab", "b", "d", "d-", "d/a", "e", "e/a"} |->
+U09 == <<"+p", ".", "a", "ab", "d", "d-", "d/a", "e", "e/a">>
+P09 == [p \in {"+p", ".", "a", "ab", "d", "d-", "d/a", "e", "e/a"} |->
           IF p = "d/a" THEN "d" ELSE IF p = "e/a" THEN "e" ELSE "."]
 U09q == <<"+p", ".", "a", "ab", "d", "d-", "d/a">>
 P09q == [p \in {"+p", ".", "a", "ab", "d", "d-", "d/a"} |-> IF p = "d/a" THEN "d" ELSE "."]
